@@ -34,8 +34,15 @@ def history(rng):
     nl = rng.randrange(1, 4)
     for i in range(nl):
         lets.append("let top%d = %s" % (i, rng.choice(["%d" % rng.randrange(100), '"s%d"' % i, "[%d, 2]" % i, "Some(%d)" % i])))
-    shape = rng.randrange(4)
-    if shape == 0:
+    shape = rng.randrange(7)
+    if shape == 4:
+        # the evaluation stops with NO call frame in flight: nested blocks written directly at the toplevel
+        failing = "if True { let secret = 20 for nn in [1, 2] { let top0 = 99 let inblk = %s } }" % stop
+    elif shape == 5:
+        failing = "let cnt = 0 while cnt < 3 { cnt += 1 match Some(cnt) { Some(mm) => { let deep = [mm, %s] } None => { 0 } } }" % stop
+    elif shape == 6:
+        failing = "let whole = [1, (2, %s)]" % stop
+    elif shape == 0:
         failing = "outer(%d)" % rng.randrange(5)
     elif shape == 1:
         failing = "let res = [outer(1), 2]"
@@ -87,7 +94,7 @@ def run(ctx):
                               {"input": r["src"], "observed": outs[-1]})
     # (b) real sessions vs fresh sessions
     for defs, lets, failing in (hist if ctx.thorough else hist[:18]):
-        probes = [":resume"] + LOCALS + ["blk", "inloop", "res", "t2", "w"] + ["top%d" % i for i in range(len(lets))] + \
+        probes = [":resume"] + LOCALS + ["blk", "inloop", "res", "t2", "w", "secret", "nn", "inblk", "mm", "deep", "whole"] + ["top%d" % i for i in range(len(lets))] + \
                  ["inner", "1 + 1", ":locals", ":stack", ":fstmts", ":fvalues"]
         a_reqs = [defs] + lets + [failing, ":abort"] + probes
         b_reqs = [defs.replace("STOP", "0")] + lets + probes
